@@ -111,6 +111,10 @@ def enumerate_cases(tier, seed):
                                                 "pos": f"mid{k}", "exc": "RuntimeError"}})
                 cases.append({"program": program, "input": inp, "prior": prior, "rng": seed,
                               "fault": {"stage": "natural", "pos": "input", "exc": "natural"}})
+                # fault-free runs whose output name has another ending, or none
+                for suffix in (".v2", "", ".top"):
+                    cases.append({"program": program, "input": inp, "fault": None, "prior": prior, "rng": seed,
+                                  "suffix": suffix})
     return cases
 
 
@@ -273,6 +277,8 @@ def check(spec, ctx):
         d.mkdir()
     tempfile.tempdir = str(tmpdir)
     suffix = {"gen_params": ".itp", "gen_coords": ".gro", "gen_seq": ".json"}[program]
+    if spec.get("suffix") is not None:
+        suffix = spec["suffix"]            # the output goes to the path it is given, whatever its ending
     target = outdir / f"result{suffix}"
     sentinel = b"; sentinel content of an older run\n[ nothing ]\n"
     if prior != "absent":
